@@ -41,7 +41,8 @@ def with_pre(strategy, prelude=True, flush=0):
         # one case in six starts from a domain reset that follows some cycles of garbage on all inputs
         pl = st.fixed_dictionaries({"cycles": st.integers(1, 12), "dseed": st.integers(0, 1 << 30), "flush": st.just(flush)})
         plain = base
-        base = weighted((5, plain), (1, st.tuples(plain, pl).map(lambda t: dict(t[0], prelude=t[1]))))
+        base = weighted((10, plain), (2, st.tuples(plain, pl).map(lambda t: dict(t[0], prelude=t[1]))),
+                        (1, plain.map(lambda t: dict(t, reset_less_domain=True))))
     common = {"delay": st.sampled_from([0, 1, 1, 2, 3, 5]), "first": st.booleans()}
     twin = st.fixed_dictionaries(dict(common, kind=st.just("twin"), reseed=st.booleans()))
     other = st.fixed_dictionaries(dict(common, kind=st.just("other"), spec=base))
